@@ -417,6 +417,8 @@ def run_driver(ctx, focus):
     sig = f"{'DOE' if cfg['doe'] else 'OPT'} {lib_name}" + ("/parallel" if settings.get("n_processes", 1) > 1 else "")
     c04_runtime = []
     parallel_composite = settings.get("n_processes", 1) > 1
+    if parallel_composite:
+        ctx.probe("real_worker_processes_outside_the_simulator")
     # (a store listener is a closure: it would make the problem unpicklable for parallel sub-optimisations)
     if (focus == "C04" or t.flag(0.2, "runtime_invariant")) and not parallel_composite:
         def listener(x):
